@@ -174,6 +174,27 @@ SEEDS = {
               "a damaged cache entry and two processes rebuilding it concurrently"),
     "C20-4": ("C20", "checksum computed through mmap (fails on empty files with ValueError)",
               "zero-length shared object whose checksum file still exists"),
+    # ---- third round (one change per agent) ----
+    "C02-5": ("C02", "tp_bsp_eval_pointwise flattens the coordinate arrays with ravel(order='K')",
+              "scattered evaluation of a tensor-product spline with coordinate arrays of >= 2 axes that are not C-ordered"),
+    "C12-5": ("C12", "two digits transposed in one Gamma coefficient (g32) of the ROSI2P1 tableau",
+              "method rosi2p1 on a problem with non-zero Jacobian; only the Gamma-dependent order conditions / the convergence rate see it"),
+    "C14-5": ("C14", "Multipatch.finalize no longer stores the compacted list of shared dofs (dead local assignment)",
+              "a join order that merges two existing classes (interior cross point, 8 of 24 orders on 2x2), then finalize / numdofs / a second finalize"),
+    "C15-5": ("C15", "nonzeros_for_rows(renumber_rows=True) numbers the rows by counting changes of the row index",
+              "a requested row without nonzeros (level pattern with an empty row) followed by a non-empty one; kron_partial(restrict=True)"),
+    "C16-5": ("C16", "modek_tprod puts the new axis back with swapaxes instead of moveaxis on the operator path",
+              "sparse matrix or LinearOperator factor, mode k >= 2 (tensor of order >= 3)"),
+    "C17-5": ("C17", "bspline.load_vector uses p instead of p+1 Gauss nodes per span",
+              "1D bspline.project_L2 / load_vector of a non-constant spline of the space, checked to rounding accuracy"),
+    "C18-5": ("C18", "modek_tprod puts the new axis back with swapaxes instead of moveaxis on the operator path",
+              "sparse matrix or LinearOperator factor, mode k >= 2 (tensor of order >= 3)"),
+    "C19-5": ("C19", "greville() sums first and divides afterwards, clamp to the domain removed",
+              "degree 3, 5 or 6 and an interval end whose p-fold sum divided by p does not round back (e.g. [0.1,0.7], p=6)"),
+    "C07-5": ("C07", "NurbsFunc.as_vector of a scalar NURBS reuses the premultiplied coefficient array as plain coefficients",
+              "scalar NurbsFunc with non-constant weights, as_vector() and everything built on it"),
+    "C08-5": ("C08", "symmetric BSR assembly mirrors the off-diagonal blocks without transposing them",
+              "vector-valued symmetric form with non-symmetric off-diagonal blocks, symmetric=True, format='bsr'"),
 }
 
 
